@@ -269,6 +269,19 @@ Additions for retrospective.py (the generators / size smoothers / SparseCover li
   cfg["while_cond"]   True: `while c: body` (with cfg["while_fuel"]) is `while True: if not c: break; body` - the test is
                       evaluated before every iteration, on explicit fuel like `while True` (Err 97 when the fuel runs out, which
                       is not a Python behaviour: links are stated for sufficient fuel).  Without the key only `while True:` is accepted.
+Additions for nextflow/scripts/batchie.py (main() and the run_* command builders; C19):
+  cfg["monad"]["while"]   the monad's own `while` combinator (Orchestrate.mwhile): `while True:` / `while T:` on cfg["while_fuel"]
+                      is accepted under that monad, the body answers `<ok> (go on?, state)` exactly as under the default monad
+                      (PyRt.res_while); a monad that does not declare one still refuses every while loop
+  cfg["tail_dup_raise"]  True: an `if` (without continue / return / break) one of whose branches MAY raise is translated like
+                      cfg["tail_dup"]: the statements that follow it become the tail of both branches (`if c: A else: B; rest` is
+                      `if c then [A; rest] else [B; rest]`), so that a variable assigned on every path that does not raise
+                      (`if m == 'a': f = g elif m == 'b': f = h else: raise ...`) is bound in the tail
+  cfg["list_elem_type"]  T: every element of a NON-EMPTY list literal `[a, b, ...]` of the function is coerced to T (through
+                      cfg["coerce"]; a value of type U where T = `opt U` is `Some`; anything that does not fit is refused) and the
+                      literal has type `list T` - for a list whose items the source builds from values of several types (the
+                      words of a command line: literals, paths, names).  Without the key a list literal has the type of its
+                      first element and the others are not coerced, as before.
 """
 import ast
 
@@ -533,6 +546,14 @@ class Tr:
         if isinstance(e, ast.List):
             if not e.elts:
                 return "[]", EMPTY_T
+            if self.cfg.get("list_elem_type") is not None:
+                # cfg["list_elem_type"]: every element of a list literal is coerced to the declared element type
+                et = parse_type(self.cfg["list_elem_type"])
+                items = []
+                for x in e.elts:
+                    xv, xt = self.expr(x, env, hoist)
+                    items.append(self.need(xv, xt, et, hoist))
+                return "[" + "; ".join(items) + "]", ("list", et)
             parts = [self.expr(x, env, hoist) for x in e.elts]
             return "[" + "; ".join(p[0] for p in parts) + "]", ("list", parts[0][1])
         if isinstance(e, ast.Dict) and not e.keys:
@@ -1335,6 +1356,12 @@ class Tr:
                 return self.bind_hoist(hoist, "%sif %s then\n%s%selse\n%s" % (ind, c, tb, ind, te), ind)
             if self.has_jump(st.body + st.orelse, (ast.Continue, ast.Return, ast.Break)):
                 raise Unsupported("an if with a branch that may, but need not, continue/return/break: " + ast.unparse(st.test))
+            if self.cfg.get("tail_dup_raise") and self.has_jump(st.body + st.orelse, (ast.Raise,)):
+                # cfg["tail_dup_raise"]: as cfg["tail_dup"], for an `if` one of whose branches may raise: the statements after
+                # the `if` become the tail of both branches, so a variable that every non-raising path assigns stays bound
+                tb = self.block(st.body + rest, env, k, ind + "  ")
+                te = self.block(st.orelse + rest, env, k, ind + "  ")
+                return self.bind_hoist(hoist, "%sif %s then\n%s%selse\n%s" % (ind, c, tb, ind, te), ind)
             allv = self.assigned(st.body + st.orelse)
             vs = [v for v in allv if v in env and env[v] != ("unit",)]
             both = [v for v in allv if v not in vs and v in self.plainly_assigned(st.body) and v in self.plainly_assigned(st.orelse)]
@@ -1833,7 +1860,7 @@ class Tr:
             leave = ast.If(test=ast.UnaryOp(op=ast.Not(), operand=st.test), body=[ast.Break()], orelse=[])
             st = ast.While(test=ast.Constant(value=True), body=[ast.copy_location(leave, st)] + list(st.body), orelse=[])
         plain = isinstance(st.test, ast.Constant) and st.test.value is True
-        if fuel is None or env.get(fuel) != ("nat",) or self.M["type"] != "result":
+        if fuel is None or env.get(fuel) != ("nat",) or (self.M["type"] != "result" and not self.M.get("while")):
             raise Unsupported("while loop without a declared fuel parameter of type nat")
         if self.has_jump(st.body, (ast.Return,)):
             raise Unsupported("return inside a loop")
@@ -1844,9 +1871,9 @@ class Tr:
 
         def kbody(env2, jump=None):
             if jump is None or jump == "continue":
-                return "%s    Ok (true, %s)\n" % (ind, tuple_term(carried))
+                return "%s    %s (true, %s)\n" % (ind, self.M["ok"], tuple_term(carried))
             if jump == "break":
-                return "%s    Ok (false, %s)\n" % (ind, tuple_term(carried))
+                return "%s    %s (false, %s)\n" % (ind, self.M["ok"], tuple_term(carried))
             raise Unsupported("jump out of a loop body")
 
         if plain:
@@ -1855,13 +1882,13 @@ class Tr:
             thoist = []
             c = self.cond(st.test, dict(env), thoist)
             inner = self.block(st.body, dict(env), kbody, ind + "      ")
-            body = self.bind_hoist(thoist, "%s    if %s then\n%s%s    else\n%s      Ok (false, %s)\n" % (
-                ind, c, inner, ind, ind, tuple_term(carried)), ind + "    ")
+            body = self.bind_hoist(thoist, "%s    if %s then\n%s%s    else\n%s      %s (false, %s)\n" % (
+                ind, c, inner, ind, ind, self.M["ok"], tuple_term(carried)), ind + "    ")
         spat = tuple_pat(carried) if carried else "(_ : unit)"
         if len(carried) == 1:
             spat = "(%s : %s)" % (carried[0], coq_type(env[carried[0]]))
-        txt = "%s%s %s <- res_while %s (fun %s =>\n%s%s  ) %s;\n" % (
-            ind, self.M["bind"], self.bind_pat(carried), fuel, spat, body, ind, tuple_term(carried))
+        txt = "%s%s %s <- %s %s (fun %s =>\n%s%s  ) %s;\n" % (
+            ind, self.M["bind"], self.bind_pat(carried), self.M.get("while", "res_while"), fuel, spat, body, ind, tuple_term(carried))
         env_after = dict(env)
         for v in dropped:
             txt += "%slet %s := tt in\n" % (ind, v)   # poison: a later read is a type error
